@@ -145,6 +145,7 @@ type c01Op struct {
 
 type c01Script struct {
 	Server     bool      `json:"server"`
+	Connect    bool      `json:"connect,omitempty"` // connect-time server-side subscription (ConnectReply.Subscriptions); excludes Server
 	Pos        bool      `json:"pos"`
 	Rec        bool      `json:"rec"`
 	JL         bool      `json:"jl"`
@@ -227,6 +228,14 @@ func c01NewWorld(t *testing.T, sc *c01Script) *c01World {
 	}
 	w.br = &c01Broker{MemoryBroker: mb}
 	n.SetBroker(w.br)
+	if sc.Connect {
+		n.OnConnecting(func(ctx context.Context, e ConnectEvent) (ConnectReply, error) {
+			return ConnectReply{Subscriptions: map[string]SubscribeOptions{c01Ch: {
+				EnablePositioning: sc.Pos, EnableRecovery: sc.Pos, PushJoinLeave: sc.JL,
+				ServerTagsFilter: &protocol.FilterNode{Cmp: "eq", Key: "k", Val: "a"},
+			}}}, nil
+		})
+	}
 	n.OnConnect(func(c *Client) {
 		c.OnSubscribe(func(e SubscribeEvent, cb SubscribeCallback) {
 			w.subCb = func() {
@@ -243,7 +252,9 @@ func c01NewWorld(t *testing.T, sc *c01Script) *c01World {
 	ctx, cancel := context.WithCancel(context.Background())
 	w.tr = &c01Transport{testTransport: newTestTransport(cancel), w: w}
 	w.client = newTestClientCustomTransport(t, ctx, n, w.tr, "u1")
-	connectClientV2(t, w.client)
+	if !sc.Connect {
+		connectClientV2(t, w.client)
+	}
 	w.topOffset() // create the stream: epoch index 1
 	return w
 }
@@ -426,7 +437,7 @@ func (w *c01World) deliverNow(tk c01Tok, lag bool) {
 func (w *c01World) settleInsufficient() {
 	for atomic.LoadInt32(&w.insuff) > w.insuffH {
 		w.insuffH++
-		if w.sc.Server {
+		if w.sc.Server || w.sc.Connect {
 			w.waitFor("server insufficient-state close", func() bool {
 				return w.tr.isClosed() && w.node.hub.NumSubscribers(c01Ch) == 0
 			})
@@ -685,7 +696,12 @@ func (w *c01World) subscribe() {
 	done := make(chan struct{})
 	tf := &protocol.FilterNode{Cmp: "eq", Key: "k", Val: "a"}
 	w.br.hook = w.gate
-	if !sc.Server {
+	if sc.Connect {
+		req := &protocol.ConnectRequest{Subs: map[string]*protocol.SubscribeRequest{c01Ch: {
+			Recover: sc.Pos && sc.Rec, Offset: w.since, Epoch: w.epStr[w.sinceEp]}}}
+		w.phase(1)
+		go func() { w.client.HandleCommand(&protocol.Command{Id: 1, Connect: req}, 0); close(done) }()
+	} else if !sc.Server {
 		ok := w.client.HandleCommand(&protocol.Command{Id: 7, Subscribe: &protocol.SubscribeRequest{
 			Channel: c01Ch, Recover: sc.Pos && sc.Rec, Offset: w.since, Epoch: w.epStr[w.sinceEp], Tf: tf}}, 0)
 		if !ok || w.subCb == nil {
@@ -710,7 +726,7 @@ func (w *c01World) subscribe() {
 		g := w.next(done)
 		switch g {
 		case "bsub":
-			if sc.Server {
+			if sc.Server || sc.Connect {
 				w.emitL("LReserve")
 			}
 			w.emitL("LStartBuf")
@@ -777,7 +793,7 @@ func (w *c01World) subscribe() {
 				w.emitL("LFailStop")
 				w.emitL("LFailRollback")
 				if !sc.Server {
-					w.waitFor("disconnect after failed subscribe", w.tr.isClosed)
+					w.waitFor("disconnect after failed subscribe / connect", w.tr.isClosed)
 					w.waitFor("close cleanup", func() bool { return w.node.hub.NumSubscribers(c01Ch) == 0 })
 				}
 				w.emitL("LFailDisc")
@@ -890,6 +906,13 @@ func (w *c01World) decode() []c01Frame {
 func (w *c01World) decodeReply(r *protocol.Reply) []c01Frame {
 	switch {
 	case r.Connect != nil:
+		if s := r.Connect.Subs[c01Ch]; s != nil { // connect-time subscription: its result travels in the connect reply
+			fr := c01Frame{K: "subreply", Rec: s.Recovered, Off: s.Offset, Ep: w.epochIndex(s.Epoch)}
+			for _, p := range s.Publications {
+				fr.Pubs = append(fr.Pubs, w.pubOf(p))
+			}
+			return []c01Frame{fr}
+		}
 		return nil
 	case r.Error != nil:
 		return []c01Frame{{K: "error", Code: r.Error.Code}}
@@ -963,6 +986,9 @@ func (w *c01World) caseTerm(frames []c01Frame) string {
 	variant := "VClient"
 	if w.sc.Server {
 		variant = "VServer"
+	}
+	if w.sc.Connect {
+		variant = "VConnect"
 	}
 	return vApp("mkCase", variant, vBool(w.sc.Pos), vBool(w.sc.Pos && w.sc.Rec), vN(w.since), vN(w.sinceEp), vBool(w.sc.JL), vBool(w.sc.Batch),
 		vList(w.sched), c01CoqFrames(frames), c01CoqPubs(w.glog), vN(uint64(w.cwEnd)), vList(w.deliv))
@@ -1127,6 +1153,10 @@ func c01RandScript(r *rand.Rand, pos bool, jl bool) *c01Script {
 		sc.Close = true
 		sc.Phase[8] = c01RandOps(r, r.Intn(3), jl)
 	}
+	// (drawn last, so that the client / server scripts of a given seed stay what they were)
+	if !sc.Server && r.Intn(3) == 0 {
+		sc.Connect = true
+	}
 	return sc
 }
 
@@ -1191,6 +1221,20 @@ func c01Corpus() []*c01Script {
 		{Pos: true, Rec: true, SinceDelta: -100, SinceEp: 1, Phase: c01Phases(map[int][]c01Op{0: c01Ops(P(true), P(false), D(1)), 3: c01Ops(c01Op{K: "dup", I: 0}, D(0), D(0), P(false), P(false), P(false), drop(0), drop(0), D(0))})},
 		// 21: server side, same shape
 		{Server: true, Pos: true, Rec: true, SinceDelta: -100, SinceEp: 1, Phase: c01Phases(map[int][]c01Op{0: c01Ops(P(true), P(true), P(false), D(0), D(0), D(0)), 3: c01Ops(P(false), P(false), P(false), drop(0), drop(0), D(0))})},
+		// 22: connect-time server-side subscription (ConnectReply.Subscriptions), positioned, live pubs
+		{Connect: true, Pos: true, Phase: c01Phases(map[int][]c01Op{0: c01Ops(P(false), P(false), D(0), D(0)), 2: c01Ops(P(false), D(0)), 6: c01Ops(P(false), D(0), P(true), D(0), P(false), D(0))})},
+		// 23: connect-time, recovery from history and buffer (the result travels inside the connect reply)
+		{Connect: true, Pos: true, Rec: true, SinceDelta: -2, SinceEp: 1, Phase: c01Phases(map[int][]c01Op{0: c01Ops(P(false), P(false), P(false), D(0), D(0), D(0)), 2: c01Ops(P(false), D(0)), 3: c01Ops(P(false), D(0)), 6: c01Ops(P(false), D(0))})},
+		// 24: connect-time, FINDING recover-reply-unanchored (same shape as case 2)
+		{Connect: true, Pos: true, Rec: true, SinceDelta: 0, SinceEp: 1, Phase: c01Phases(map[int][]c01Op{0: c01Ops(P(false), P(false), D(0), D(0)), 3: c01Ops(P(false), P(false), drop(0), D(0)), 6: c01Ops(P(false), D(0))})},
+		// 25: connect-time, merge detects the gap -> the connect fails with disconnect insufficient state
+		{Connect: true, Pos: true, Rec: true, SinceDelta: -1, SinceEp: 1, Phase: c01Phases(map[int][]c01Op{0: c01Ops(P(false), P(false), D(0), D(0)), 3: c01Ops(P(false), P(false), drop(0), D(0))})},
+		// 26: connect-time, live gap -> insufficient state disconnects (server-side subscription)
+		{Connect: true, Pos: true, Phase: c01Phases(map[int][]c01Op{6: c01Ops(P(false), P(false), drop(0), D(0), P(false), D(0))})},
+		// 27: connect-time, not recovered (trimmed history), then server-side unsubscribe and late deliveries
+		{Connect: true, Pos: true, Rec: true, SinceDelta: -3, SinceEp: 1, Unsub: 2, Phase: c01Phases(map[int][]c01Op{0: c01Ops(P(false), P(false), P(false), c01Op{K: "pub", Size: 1}), 6: c01Ops(P(false), D(4)), 7: c01Ops(P(false), D(0))})},
+		// 28: connect-time, client unsubscribe command, then close
+		{Connect: true, Pos: true, Unsub: 1, Close: true, Phase: c01Phases(map[int][]c01Op{6: c01Ops(P(false), D(0)), 7: c01Ops(P(false), D(0)), 8: c01Ops(P(false), D(0))})},
 	}
 }
 
@@ -1229,6 +1273,9 @@ func c01ShapedScript(r *rand.Rand) *c01Script {
 	p3 = append(p3, c01D(0))
 	sc.Phase[3] = p3
 	sc.Phase[6] = c01RandOps(r, r.Intn(4), false)
+	if !sc.Server && r.Intn(3) == 0 {
+		sc.Connect = true
+	}
 	return sc
 }
 
@@ -1263,6 +1310,9 @@ func c01RunCase(t *testing.T, w *verifW, i int, sc *c01Script, class string) {
 	variant := "client"
 	if sc.Server {
 		variant = "server"
+	}
+	if sc.Connect {
+		variant = "connect"
 	}
 	if sc.Pos && sc.Rec {
 		variant += "/recover"
